@@ -442,7 +442,7 @@ class DataFrameModel(BaseModel):
         method_names = set()
         check_infos = []
         for base in bases:
-            for attr_name, attr_value in vars(base).items():
+            for attr_name, attr_value in list(vars(base).items()):
                 check_info = getattr(attr_value, key, None)
                 if not isinstance(check_info, CheckInfo):
                     continue
